@@ -234,6 +234,10 @@ func (t *Tpl) writeNode(w io.Writer, node *node, ctx *Ctx) (err error) {
 		}
 		// Convert modified data to bytes array.
 		if err = ctx.BufAcc.StakeOut().WriteX(raw).Error(); err == nil {
+			if ctx.BufAcc.StakedLen() == 0 {
+				// Empty value. Do nothing.
+				return
+			}
 			if len(node.prefix) > 0 {
 				// Write prefix.
 				_, _ = w.Write(node.prefix)
